@@ -20,6 +20,9 @@ pub struct Scn {
     /// join offsets [lo, hi) relative to the start of the reference cycle; None = all offsets of the cycle
     pub offsets: Option<(u32, u32)>,
     pub cleanup_every: u32,
+    /// evaluate the join offsets of all recorded cycles but the last three (instead of one reference cycle)
+    #[serde(default)]
+    pub long_span: bool,
 }
 
 pub struct C16;
@@ -70,11 +73,34 @@ pub fn gen(idx: u64, rng: &mut Rng, _tier: Tier) -> Scn {
     poll.max_polls = 3000;
     let mut recv = RecvSpec::basic();
     recv.object_timeout_ms = Some(3_600_000);
+    let mut sender = SenderScn { spec, objects, ops, poll, snapshots: false };
+    let mut long_span = false;
+    if !grid && rng.chance(0.12) {
+        // the life cycle of FDT instances inside a long-running carousel: (a) the 20-bit instance id wraps in the
+        // middle of the recording, (b) the session outlives fdt_duration (32-45 s: flute renews 5 s before
+        // expiry), with cycles of seconds. Joins are then evaluated over ALL recorded cycles but the last three.
+        long_span = true;
+        if rng.chance(0.5) {
+            sender.spec.fdt_start_id = 0x100000 - rng.range(2, 12) as u32;
+        } else {
+            sender.spec.fdt_duration_ms = *rng.pick(&[32_000u64, 38_000, 45_000]);
+            for o in sender.objects.iter_mut() {
+                o.carousel = Some(CarouselSpec::DelayMs(*rng.pick(&[4000u64, 7000])));
+                o.max_transfer_count = 1;
+            }
+            sender.spec.fdt_carousel = CarouselSpec::DelayMs(*rng.pick(&[1000u64, 2500]));
+            sender.poll = PollSpec::simple(20_000);
+            sender.poll.burst = None;
+            sender.poll.max_pkts = 1500;
+            sender.poll.max_polls = 3500;
+        }
+    }
     Scn {
-        sender: SenderScn { spec, objects, ops, poll, snapshots: false },
+        sender,
         recv,
         offsets: None,
         cleanup_every: if grid { 0 } else { *rng.pick(&[0u32, 3]) },
+        long_span,
     }
 }
 
@@ -97,7 +123,8 @@ pub fn run(scn: &Scn, ctx: &Ctx, scratch: &Path) {
         return;
     }
     let cyc_lo = mine[step].pkts[0];
-    let cyc_hi = mine[2 * step].pkts[0];
+    let n_cycles = mine.len() / step;
+    let cyc_hi = if scn.long_span && n_cycles >= 6 { mine[(n_cycles - 3) * step].pkts[0] } else { mine[2 * step].pkts[0] };
     let (lo, hi) = match scn.offsets {
         Some((a, b)) => (cyc_lo + a as usize, (cyc_lo + b as usize).min(cyc_hi)),
         None => (cyc_lo, cyc_hi),
@@ -131,7 +158,9 @@ pub fn run(scn: &Scn, ctx: &Ctx, scratch: &Path) {
                 CarouselSpec::DelayMs(d) | CarouselSpec::IntervalMs(d) => d * 1000,
             };
             let left = trace.pkts.last().map(|p| p.t_us).unwrap_or(0).saturating_sub(trace.pkts[j].t_us);
-            if left >= 4 * d_us + 50_000 {
+            // one FDT round = its repetition delay + the time one transmission takes on this poll schedule
+            let tx_us = sess.txs.iter().map(|t| trace.pkts[t.last].t_us - trace.pkts[t.first].t_us).max().unwrap_or(0);
+            if left >= 4 * (d_us + tx_us) + 50_000 {
                 fdt_starved = true;
                 violate(
                     ctx,
